@@ -11,11 +11,12 @@ pub mod l3 {
       relation r0(i64, i64);
       relation r1(i64, i64);
       relation r2(i64);
-      lattice r3(i64, i64, Option<i64>);
-      r3(v0, v0, Some((*v0))) <-- r2(v0);
-      r3(v0, v0, v1) <-- r3(v0, 0, v1) if ((*v0) < 2), r2(v2);
-      r1(v0, v0) <-- r2(v0) if ((*v0) < 6), r0(v0, v0);
-      r1(3, v0) <-- r3(v0, v1, v2);
+      lattice r3(i64, i64, Set<i64>);
+      r3(v0, v0, Set::singleton((*v0))) <-- r2(v0);
+      r3(v1, v1, v2) <-- r3(v0, v1, v2), r1(2, v0) if ((*v1) < 6);
+      r1(v0, v0) <-- r0(v0, v0);
+      r0(2, v0) <-- r1(0, v0);
+      r1(v1, v2) <-- r3(0, 0, v0), r1(v1, v2);
    }
    pub struct Inst { p: Prog, pool: Option<ascent::rayon::ThreadPool> }
    pub fn make(pool: Option<usize>) -> Box<dyn Driver> {
@@ -29,12 +30,13 @@ pub mod l3 {
          0 => { let v: Vec<(i64,i64,)> = parse_rows(rows)?; if append { self.p.r0.extend(v) } else { self.p.r0 = v } },
          1 => { let v: Vec<(i64,i64,)> = parse_rows(rows)?; if append { self.p.r1.extend(v) } else { self.p.r1 = v } },
          2 => { let v: Vec<(i64,)> = parse_rows(rows)?; if append { self.p.r2.extend(v) } else { self.p.r2 = v } },
-         3 => { let v: Vec<(i64,i64,Option<i64>,)> = parse_rows(rows)?; if append { self.p.r3.extend(v) } else { self.p.r3 = v } },
+         3 => { let v: Vec<(i64,i64,Set<i64>,)> = parse_rows(rows)?; if append { self.p.r3.extend(v) } else { self.p.r3 = v } },
             _ => return None,
          }
          Some(())
       }
       fn run(&mut self) { match &self.pool { Some(pl) => { let p = &mut self.p; pl.install(|| p.run()) }, None => self.p.run() } }
+      fn run_here(&mut self) { self.p.run() }
       fn run_timeout(&mut self, k: usize) -> Option<bool> { let _ = k; None }
       fn dump(&self) -> String { vec![dump_rel(0, self.p.r0.iter().map(Row::render).collect()), dump_rel(1, self.p.r1.iter().map(Row::render).collect()), dump_rel(2, self.p.r2.iter().map(Row::render).collect()), dump_rel(3, self.p.r3.iter().map(Row::render).collect())].join(" | ") }
       fn iters(&self) -> String { format!("iters {}", self.p.scc_iters.iter().map(|x| x.to_string()).collect::<Vec<_>>().join(" ")) }
@@ -52,13 +54,12 @@ pub mod l11 {
       relation r0(i64);
       relation r1(i64, i64);
       relation r2(i64);
-      lattice r3(i64, i64);
-      r3(v0, (*v0)) <-- r0(v0);
-      r3(v0, v1) <-- r3(v0, v1), r0(v0);
-      r3(v0, (*v0)) <-- r3(v0, v1) if ((*v0) < 6), r3(v0, v2);
-      r1(3, v0) <-- r3(v0, v1), r2(v2) if ((*v2) < 4);
-      r1(v0, v0) <-- r2(v0);
-      r1(v1, v1) <-- r1(v0, v1), r0(v0);
+      lattice r3(i64, Option<i64>);
+      r3(v0, Some((*v0))) <-- r0(v0);
+      r3(v2, v3) <-- r3(v0, v1) if ((*v0) < 6), r3(v2, v3) if ((*v2) < 6);
+      r2(v0) <-- r0(v0) if ((*v0) < 2), r2(v1) if ((*v1) < 5);
+      r2(v0) <-- r2(v0);
+      r3(v0, v1) <-- r3(v0, v1), r0(v2);
    }
    pub struct Inst { p: Prog, pool: Option<ascent::rayon::ThreadPool> }
    pub fn make(pool: Option<usize>) -> Box<dyn Driver> {
@@ -72,12 +73,13 @@ pub mod l11 {
          0 => { let v: Vec<(i64,)> = parse_rows(rows)?; if append { self.p.r0.extend(v) } else { self.p.r0 = v } },
          1 => { let v: Vec<(i64,i64,)> = parse_rows(rows)?; if append { self.p.r1.extend(v) } else { self.p.r1 = v } },
          2 => { let v: Vec<(i64,)> = parse_rows(rows)?; if append { self.p.r2.extend(v) } else { self.p.r2 = v } },
-         3 => { let v: Vec<(i64,i64,)> = parse_rows(rows)?; if append { self.p.r3.extend(v) } else { self.p.r3 = v } },
+         3 => { let v: Vec<(i64,Option<i64>,)> = parse_rows(rows)?; if append { self.p.r3.extend(v) } else { self.p.r3 = v } },
             _ => return None,
          }
          Some(())
       }
       fn run(&mut self) { match &self.pool { Some(pl) => { let p = &mut self.p; pl.install(|| p.run()) }, None => self.p.run() } }
+      fn run_here(&mut self) { self.p.run() }
       fn run_timeout(&mut self, k: usize) -> Option<bool> { let _ = k; None }
       fn dump(&self) -> String { vec![dump_rel(0, self.p.r0.iter().map(Row::render).collect()), dump_rel(1, self.p.r1.iter().map(Row::render).collect()), dump_rel(2, self.p.r2.iter().map(Row::render).collect()), dump_rel(3, self.p.r3.iter().map(Row::render).collect())].join(" | ") }
       fn iters(&self) -> String { format!("iters {}", self.p.scc_iters.iter().map(|x| x.to_string()).collect::<Vec<_>>().join(" ")) }
